@@ -95,6 +95,7 @@ def analyse(rep: Report) -> None:
     rep.rule('R08.7', 'divisors are non-zero on every path', floor=2)
     rep.rule('R08.8', 'one branch per symbolic start value, parser and branches agree', floor=5)
     rep.rule('R08.9', 'the publishTime grid of a symbolic start is anchored at one instant per calendar unit', floor=3)
+    rep.rule('R08.10', 'an explicit start is parsed to the instant it names and written back as that instant (rules of C19)', floor=1)
     rep.axioms.extend([
         'wall clock: now >= 2020-01-01T00:00:00Z',
         'an explicit start instant is <= now (quantification of C08)',
@@ -390,6 +391,8 @@ def analyse(rep: Report) -> None:
         else:
             rep.fail('R08.8', construct, f'start={v}',
                      f'calculate_live_params resolves `{v}`, which the option parser does not accept', live)
+    from .c19 import lift_into
+    lift_into(rep, 'R08.10', ('R19.2', 'R19.3', 'R19.5'), 'ISO date-time parser and formatter of the start option')
     missing = (symbolic | {'explicit'}) - seen_labels
     if missing:
         raise AnalysisError(f'no normal exit reached for start values {sorted(missing)}')
